@@ -9,6 +9,7 @@ open AbtemVerif AbtemVerif.Proto AbtemVerif.ArrObj
              `squeeze <obj> <none|axes ints>`
              `reduce <obj> <axes ints> <T|F keepdims>`
              `stack <obj> <k> <newaxis> <axis>`     k copies, copy j has data offset j*1000
+             `concat <obj> <k> <axis>`              k copies joined along ensemble axis `axis` (data offset j*1000, ordinal values + 100*j)
    reply   : `ok <shape> <axes> <data> <md l:v,…|_>` | `err <kind>` | `bad-op` -/
 
 def pAxis (s : String) : Option Axis :=
@@ -103,6 +104,16 @@ def handle : List String → String
     | some o, some k, some na, some axis =>
       showObj (stack ((List.range k).map fun (j : Nat) => { o with data := o.data.map (· + 1000 * Int.ofNat j) }) na axis)
     | _, _, _, _ => "bad-op"
+  | ["concat", bd, shape, axes, k, axis] =>
+    -- k operands: copy j has data offset j*1000 and, along `axis`, the ordinal values shifted by 100*j
+    match pObj bd shape axes, parseNat? k, parseNat? axis with
+    | some o, some k, some axis =>
+      showObj (concat ((List.range k).map fun (j : Nat) =>
+        { o with data := o.data.map (· + 1000 * Int.ofNat j),
+                 ens := o.ens.zipIdx.map fun (a, i) => match a with
+                   | .ordinal l vs => if i = axis then .ordinal l (vs.map (· + 100 * Int.ofNat j)) else a
+                   | a => a }) axis)
+    | _, _, _ => "bad-op"
   | _ => "bad-op"
 
 def main : IO Unit := serve handle
